@@ -12,7 +12,8 @@ package netflow9
 //@ pred fatal9(e error) = e != nil && typeid(e) != tyof(nonfatalError)
 //@ pred wellFormed9(m MemCache) = len(m) == 32 && (forall j :: m.off <= j && j < m.off + 32 ==> m.arr[j] != nil && !m.arr[j].Templates.isnil)
 // the abstract view of the cache (C04): the entry for (addr, id) lives in shard fnvKey %% 32 under map key fnvKey
-//@ uninterp fnvKey9(addr net.IP, id uint16) mathint
+//@ uninterp fnvOther9(addr net.IP, id uint16) mathint
+//@ spec fnvKey9(addr net.IP, id uint16) mathint = len(addr) == 4 ? fnv6(addr[0], addr[1], addr[2], addr[3], id / 256, id % 256) : (len(addr) == 16 ? fnv18(addr[0], addr[1], addr[2], addr[3], addr[4], addr[5], addr[6], addr[7], addr[8], addr[9], addr[10], addr[11], addr[12], addr[13], addr[14], addr[15], id / 256, id % 256) : fnvOther9(addr, id))
 //@ pred cacheHas9(m MemCache, addr net.IP, id uint16) = has(m.arr[m.off + fnvKey9(addr, id) % 32].Templates, fnvKey9(addr, id))
 //@ spec cacheGet9(m MemCache, addr net.IP, id uint16) TemplateRecord = m.arr[m.off + fnvKey9(addr, id) % 32].Templates[fnvKey9(addr, id)].Template
 
@@ -160,7 +161,8 @@ package netflow9
 //@ func (MemCache).getShard
 //@   requires wellFormed9(m)
 //@   ensures result != nil && !result.Templates.isnil
-//@   ensures [trusted.key] result1 == fnvKey9(addr, id) && 0 <= fnvKey9(addr, id) && fnvKey9(addr, id) < 4294967296   // hash/fnv computes FNV-1 32 of addr ++ big-endian id: a function of (addr octets, id)
+//@   ensures [key] (len(addr) == 4 || len(addr) == 16) ==> result1 == fnvKey9(addr, id)   // the map key is FNV-1 32 of the address octets followed by the big-endian id
+//@   ensures [trusted.key] !(len(addr) == 4 || len(addr) == 16) ==> result1 == fnvKey9(addr, id)   // other address lengths do not occur (net.UDPAddr.IP has 4 or 16 octets)
 //@   ensures [shard] result == m.arr[m.off + result1 % 32]
 
 //@ func (*MemCache).insert
